@@ -51,6 +51,20 @@ class Rejected(IgnoreAttempt):
     """Precondition not met on this path (works natively and under tracing)."""
 
 
+class StubLimitation(AttributeError):
+    """The code under test used a part of an environment stub's interface that the stub has no model of.  Not a verdict
+    about ombott: the query ends as a machinery error (exit 3), never as a violation.  (An AttributeError, so that
+    hasattr()/getattr(x, name, default) on a stub still answer.)"""
+
+
+def unmodelled(cls):
+    """class decorator for stubs: any attribute the stub does not define raises StubLimitation"""
+    def __getattr__(self, name):
+        raise StubLimitation("%s stub has no model of attribute %r" % (cls.__name__, name))
+    cls.__getattr__ = __getattr__
+    return cls
+
+
 _cover: Counter = Counter()
 _path_cover: set = set()
 
@@ -269,6 +283,8 @@ def run_native(fn: Callable, args: Dict[str, Any]):
         r = fn(**args)
     except Rejected:
         return "rejected", None
+    except StubLimitation as e:
+        return "stub-limitation", str(e)
     except Exception as e:  # noqa
         return "fail", "exception escaped harness: %s: %s\n%s" % (
             type(e).__name__, e, traceback.format_exc(limit=8))
@@ -320,6 +336,10 @@ def explore(qid: str, fn: Callable, *, timeout: float, per_path_timeout: float =
                         exc, stack = efilter.user_exc
                         if isinstance(exc, NotDeterministic):
                             raise exc
+                        if isinstance(exc, StubLimitation):
+                            res.status = "error"
+                            res.error = "stub limitation (no verdict): %s\n%s" % (exc, "".join(stack.format()[-4:]))
+                            break
                         failure = "exception escaped harness: %s: %s\n%s" % (
                             type(exc).__name__, exc, "".join(stack.format()[-6:]))
                     else:
